@@ -112,6 +112,34 @@ Theorem C11_open_after_close_refuted :
 Proof. exact open_after_close_refuted. Qed.
 Print Assumptions C11_open_after_close_refuted.
 
+(* a length field above any bound.  The code has no upper bound on the announced length: the reader allocates what the
+   header says and waits for it.  A header that announces more than the trunk will ever carry is no frame: when the trunk
+   ends the reader sees an end-of-file (no byte of the payload came) or a cut payload, closes the Mux and queues nothing *)
+Theorem C11_oversized_length_is_no_frame : forall a b c d e f g h rest,
+  lenN rest < u32 e f g h ->
+  parse_one (a :: b :: c :: d :: e :: f :: g :: h :: rest) = if lenN rest =? 0 then PNoPayload else PShortPayload.
+Proof. exact oversized_length_is_no_frame. Qed.
+Print Assumptions C11_oversized_length_is_no_frame.
+
+Theorem C11_oversized_length_fails_stop : forall s a b c d e f g h rest,
+  m_blocked s = false -> m_reader_done s = false -> m_closed s = false ->
+  m_rx s = a :: b :: c :: d :: e :: f :: g :: h :: rest -> lenN rest < u32 e f g h ->
+  let s' := reader_step s in
+  m_closed s' = true /\ m_reader_done s' = true /\ m_err s' <> None /\
+  forall id, queue_in id s' = queue_in id s.
+Proof. exact oversized_length_fails_stop. Qed.
+Print Assumptions C11_oversized_length_fails_stop.
+
+(* the length reaches make([]byte, …) as the unsigned number it is (MuxConsts.length_unsigned, read from mux.go on every run);
+   held in a signed 32-bit variable a length of 2^31 or more would be negative and make would panic *)
+Theorem C11_length_never_negative : forall raw, alloc_len length_unsigned raw = Some raw.
+Proof. exact length_never_negative. Qed.
+Print Assumptions C11_length_never_negative.
+
+Theorem C11_length_signed_refuted : alloc_len false 2147483648 = None /\ alloc_len false 4294967295 = None.
+Proof. exact length_signed_refuted. Qed.
+Print Assumptions C11_length_signed_refuted.
+
 (* the reader's send into a connection's queue.  The reader looks the connection up, releases the lock and then sends;
    a conn.Close may come in between.  The queue's channel is never closed (MuxConsts.readq_never_closed, read from mux.go on
    every run), so whatever happened to the connection meanwhile the send queues the frame or finds the queue full: it cannot
